@@ -18,6 +18,9 @@ CHECKS = {
  "C03": dict(level="fault_enumeration", technique="exhaustive single-bit-flip and burst-error enumeration with an independent bitwise CRC oracle",
    text="For a set of fully CRC-protected bundles every single-bit flip and every burst (start bit x length <= CRC width x all interior patterns up to a stated length, structured patterns above) is presented to the real parser; acceptance is judged by an independent CRC-16/X-25 / CRC-32C over independently delimited blocks. Serialiser CRCs (fresh, after every sequence of <=2 in-memory mutations, after parse) are compared with the bitwise reference.",
    note="Trusted: bitwise CRCs self-tested against published check values; reference tokenizer for block delimiting. Interior patterns of long bursts are capped (reported).", design="3/C03"),
+ "C02": dict(level="exploration", technique="bounded-exhaustive enumeration of rule-violator subsets on valid encodings and of builder call sequences, against a reference validity predicate",
+   text="89 concrete violators of the BPv7 structural rules (several forms per rule plus valid-side boundary cases) are applied, alone and in all pairs (thorough: selected triples), to 30 valid base encodings through a reference CBOR tree editor with CRCs recomputed; the real parser must not accept any encoding the reference predicate judges violating. Producer side: every builder call sequence (valid 5-call base combined with all sequences of extra calls before/after/inside) and every BuildFromMap map up to a bound must yield only bundles that satisfy the predicate and are accepted by the parser. Fragment/reassembly outputs are judged by the same predicate in C09/C10.",
+   note="Trusted: the reference predicate (mc/ref Rules) transcribed from the statement; accept => valid is the deciding direction, valid-but-rejected is only counted. Panics are left to C04.", design="3/C02"),
 }
 NA_REASON = "check not built yet in this round (planned in DESIGN.md section 3)"
 
